@@ -21,7 +21,8 @@ META = {
             "in-flight) whose invariants TLC checks and whose histories (<= 4 quick / 5 thorough steps over "
             "keep-alives of two backends and replies with known, repeated and unknown ids) are replayed on the "
             "live proxy with scripted fake backends; concurrent bursts and concurrently running reply handlers "
-            "(exported forwardKeepAlive, real connections) cover 'even under concurrent handling'. The recorded "
+            "(exported forwardKeepAlive, real connections; gate points hold them until all are at the consume "
+            "step, and again before the backend write) cover 'even under concurrent handling'. The recorded "
             "sends, replies and arrivals are validated by TLC.",
     "design_ref": "DESIGN.md section 4, C18",
     "level_note": "Only the 'only if / at most once / otherwise dropped' direction is judged, as stated; that matching "
@@ -60,6 +61,8 @@ def run(ctx):
     st = json.load(open(ctx.path("stats.json")))
     if st["aborted"] > (len(hists) + len(extra)) // 4:
         raise vlib.ToolError("%d scripted connections could not be set up" % st["aborted"])
+    if not st.get("rendezvous_met"):
+        raise vlib.ToolError("hook_missing: no group of concurrent reply handlers met at the ka.consume gate")
     if st["forwards"] == 0:
         raise vlib.ToolError("no keep-alive reply reached any backend: the check would be vacuous")
     recs = vlib.read_ndjson(ctx.path("trace.ndjson"))
@@ -93,6 +96,8 @@ def run(ctx):
                 "concurrent-handler runs",
         "runs_by_kind": st["kinds"],
         "replies_forwarded": st["forwards"],
+        "handler_rendezvous_met": st["rendezvous_met"],
+        "handler_rendezvous_timed_out": st["rendezvous_timed_out"],
         "trace_events_validated": matched,
         "race_detector": False,
         "exhaustive": False,
